@@ -792,7 +792,8 @@ func (st *state) applyDefaults(instancep reflect.Value, schema *Schema) (err err
 }
 
 // schemaHasDefaultsInProperties reports whether s or any descendant schema under
-// its Properties contains a default. Only walks Properties to match ApplyDefaults semantics.
+// its Properties contains a default that ApplyDefaults would apply.
+// Only walks Properties, and skips required properties, to match ApplyDefaults semantics.
 func schemaHasDefaultsInProperties(s *Schema) bool {
 	if s == nil {
 		return false
@@ -801,7 +802,12 @@ func schemaHasDefaultsInProperties(s *Schema) bool {
 		return true
 	}
 	if s.Properties != nil {
-		for _, ss := range s.Properties {
+		for prop, ss := range s.Properties {
+			// Defaults on required properties are never applied, so they are no
+			// reason to create the parent.
+			if slices.Contains(s.Required, prop) {
+				continue
+			}
 			if schemaHasDefaultsInProperties(ss) {
 				return true
 			}
